@@ -337,14 +337,27 @@ theorem forLoop_unfold {id body idx start stop step meas cons σ mm cm P}
   have hsi : si ≠ 0 := by
     intro h; apply hs0; rw [h]; rfl
   rw [denote] at hden
-  simp only [ha, hb, hs, checkedInt_intCast, ok_bind, bind_ok_iff] at hden
-  obtain ⟨_, _, a1, h1, b1, h2, s1, h3, hden⟩ := hden
-  simp only [pure_ok_iff] at h1 h2 h3
-  subst h1 h2 h3
-  rw [if_neg hsi] at hden
-  simp only [bind_ok_iff, pure_ok_iff] at hden
-  obtain ⟨ms, _, parts, hparts, p, hp, hP⟩ := hden
-  exact ⟨ai, bi, si, parts, p, ms, rfl, rfl, rfl, hsi, hparts, hp, hP.symm, hall⟩
+  have hcore : ∃ (ms : List Window) (parts : List Pulse) (p : Pulse),
+      (pyRange ai bi si).mapM (fun (i : Int) => denote body (.range σ idx (i : Rat)) mm cm) = .ok parts ∧
+      Pulse.appendAll parts = .ok p ∧ P = p.withOwn ms := by
+    first
+    | (simp only [ha, hb, hs, checkedInt_intCast, ok_bind, bind_ok_iff] at hden
+       obtain ⟨_, _, a1, h1, b1, h2, s1, h3, hden⟩ := hden
+       simp only [pure_ok_iff] at h1 h2 h3
+       subst h1 h2 h3
+       rw [if_neg hsi] at hden
+       simp only [bind_ok_iff, pure_ok_iff] at hden
+       obtain ⟨ms, _, parts, hparts, p, hp, hP⟩ := hden
+       exact ⟨ms, parts, p, hparts, hp, hP.symm⟩)
+    | (-- the variant of `QP.PT.denote` that casts the range parameters with `intOrErr`
+       simp only [ha, hb, hs, intOrErr, checkedInt_intCast, ok_bind, bind_ok_iff] at hden
+       obtain ⟨_, _, hden⟩ := hden
+       rw [if_neg hsi] at hden
+       simp only [bind_ok_iff, pure_ok_iff] at hden
+       obtain ⟨ms, _, parts, hparts, p, hp, hP⟩ := hden
+       exact ⟨ms, parts, p, hparts, hp, hP.symm⟩)
+  obtain ⟨ms, parts, p, hparts, hp, hP⟩ := hcore
+  exact ⟨ai, bi, si, parts, p, ms, rfl, rfl, rfl, hsi, hparts, hp, hP, hall⟩
 theorem idx_cast (ai si : Int) (k : Nat) :
     (((ai + si * (k : Int) : Int)) : Rat) = (ai : Rat) + (k : Rat) * (si : Rat) := by
   simp only [Rat.intCast_add, Rat.intCast_mul, Rat.intCast_natCast]
